@@ -15,11 +15,11 @@ Definition min64 : Z := - 2 ^ 63.
 Definition wrap64 (z : Z) : Z := (z + 2 ^ 63) mod 2 ^ 64 - 2 ^ 63.
 
 (* ---------- value_number.go ---------- *)
-(* Value.number(): is the kind numberInfinity, and the saturated int64 *)
+(* Value.number(): is the kind numberNaN or +Infinity (what lastIndexOf asks), and the saturated int64 *)
 Definition number_bits (bits : Z) : bool * Z :=
   match decode bits with
-  | DNaN => (false, 0)
-  | DInf neg => (true, if neg then min64 else max64)
+  | DNaN => (true, 0)
+  | DInf neg => (negb neg, if neg then min64 else max64)
   | DFin neg m e =>
       let t := trunc_mag m e in
       let v := if neg then - t else t in
@@ -114,8 +114,8 @@ Definition m_lastIndexOf (s t : gostr) (nargs : nat) (a1 : arg) : option res :=
     if zlen v =? 0 then whole else
     match number a1 with
     | None => None
-    | Some (isinf, n) =>
-        if isinf then whole else
+    | Some (whole_string, n) =>
+        if whole_string then whole else   (* NaN and +Infinity: search from the end (after ea386ab) *)
         let st := if n <? 0 then 0 else n in
         let st := if zlen v <? st then zlen v else st in      (* clamped to the byte length *)
         let e := st + zlen tb in
